@@ -1,5 +1,6 @@
 import UpfVerif.Model.Buf
 import UpfVerif.Props.C14
+import UpfVerif.Props.C10
 /-
 C13 — buffered downlink packets are released in order, once, to the right tunnel.
 
@@ -485,6 +486,17 @@ theorem removePdr_drops (st : St) (up pdr : Nat) (s : Sess) (h : alGet st.sess u
   simp only [removePdr, h, hp]
   refine ⟨_, alGet_alSet_same _ _ _, ?_⟩
   simp [queue, alGet_alDel_same]
+
+/-! ### towards the owning SMF (control-plane side, model Core) -/
+
+/-- the downlink-data notification(s) of a session — and nothing else the report causes — go to the destination of the node
+    that owns the session at that moment: its IPv4 node id's address, else the address it associated from; also after the
+    session was taken over by another node (the owner is looked up per report, C10 `report_goes_to_owner`) -/
+theorem notification_goes_to_owner (st : Core.State) (x : Core.Seid) (pdr : Nat) (act : BitVec 16) (pkt : Bytes) (c : Core.Ctx)
+    (s : Core.Sess) (dest : String) (h : st.lnode.lookup x = some s)
+    (hd : Core.reportDest (st.nodes.getD s.rnode default) = some dest) :
+    C10.OnlyTo dest c (Core.serveReport st x [.dldr pdr act pkt] c).2 :=
+  C10.report_goes_to_owner st x _ c s dest h hd
 
 /-! ### non-vacuity: two packets buffered for PDR 1, one for PDR 2 (FAR 1 buffering, both PDRs related), then FORW -/
 def exSt : St :=
